@@ -234,3 +234,23 @@ def write_conflicts(call):
             if i != j and reads[i] & writes[j]:
                 bad.append(("read/write", i, j, sorted(reads[i] & writes[j], key=repr)[:3]))
     return bad, sum(len(v) for v in writes.values())
+
+
+
+class FastSwitch:
+    """scheduling stress without instrumentation: the interpreter is asked to hand the GIL over every microsecond, so that
+    worker threads (and caller threads) interleave inside the pure-Python sections a default 5 ms interval runs atomically"""
+
+    def __init__(self, interval=1e-6):
+        self.interval = interval
+
+    def __enter__(self):
+        import sys
+        self.old = sys.getswitchinterval()
+        sys.setswitchinterval(self.interval)
+        return self
+
+    def __exit__(self, *exc):
+        import sys
+        sys.setswitchinterval(self.old)
+        return False
